@@ -159,6 +159,7 @@ def run_case(c):
                                is_projection=c["projection"], classical=c["classical"])
         tp.temperatures = temps
         tp.run(lang=c["lang"])
+        held_first = [a for a in tp.thermal_properties]  # the arrays as handed out (no copy): must still say the same after the object has run again
         T_, F_, S_, C_ = [np.array(a, float) for a in tp.thermal_properties]
         feat = dict(lang=c["lang"], classical=c["classical"], cutoff=cutoff, pretend_real=c["pretend_real"], projection=c["projection"])
         # the same object run again (same temperatures: same answers; then another grid of the same length: the answers of a fresh object)
@@ -187,6 +188,12 @@ def run_case(c):
             if a_.shape != b_.shape or (np.isfinite(a_) != np.isfinite(b_)).any() or (fin.any() and np.abs(a_[fin] - b_[fin]).max() > 1e-12 * max(np.abs(b_[fin]).max(), 1e-300)):
                 bad("rerun_differs", "%s on a second temperature grid differs between a re-used ThermalProperties object and a fresh one (max diff %.3e)" % (
                     nm, np.abs(a_[fin] - b_[fin]).max() if fin.any() and a_.shape == b_.shape else np.nan), quantity=nm, **feat)
+                break
+        obs["n_results_reread_after_rerun"] = obs.get("n_results_reread_after_rerun", 0) + 1
+        for nm, held_, kept_ in zip(("temperatures", "F", "S", "Cv"), held_first, (T_, F_, S_, C_)):
+            h_ = np.array(held_, float)
+            if h_.shape != kept_.shape or not np.array_equal(h_, kept_, equal_nan=True):
+                bad("handed_out_result_changed", "the %s array handed out after the first run() was changed when the same object ran again on another temperature grid" % nm, quantity=nm, **feat)
                 break
         # the temperatures in another order (descending / shuffled, 0 K not first): every value is a function of its own temperature only
         perm = np.random.default_rng(c["seed"] + 5).permutation(len(temps)) if len(temps) > 2 else np.arange(len(temps))[::-1]
